@@ -225,7 +225,9 @@ func TestPolicy(t *testing.T) {
 					l.RespHeaders = append(hs, gen.HV{Name: c.PickStr("cc.name", "Cache-Control", "cache-control"), Value: p.CacheControl})
 				case "expires-header":
 					if !p.HasExpires {
-						l.RespHeaders = append(l.RespHeaders, gen.HV{Name: "Expires", Value: "Thu, 01 Dec 2094 16:00:00 GMT"})
+						// (storability depends on the field being present, RFC 7234 section 3; a value
+						// that is no HTTP-date means "already expired", section 5.3, not "absent")
+						l.RespHeaders = append(l.RespHeaders, gen.HV{Name: "Expires", Value: c.PickStr("expires.value", "Thu, 01 Dec 2094 16:00:00 GMT", "Thu, 01 Dec 2094 16:00:00 GMT", "0", "-1", "2094-12-01T16:00:00Z", "Thu, 01 Dec 1994 16:00:00 +0000", "never")})
 						p.HasExpires = true
 					}
 				case "status":
